@@ -199,5 +199,9 @@ def run(rep: Report, tier: str) -> None:
                         fallthrough.append(f"{rev[a]}->{rev[b]}")
     rep.note("R09.3 (information) accepted pairs served by the generic CAST(expr AS type): " + ", ".join(sorted(set(fallthrough))))
     rep.analysed = {"type_pairs": len(accept), "accepted_pairs": sum(accept.values()), "macros_defined": len(macros)}
+    # ---- R09.4: the Time -> Time_Period conversion macro writes ISO weeks with the ISO year (rule shared with C08) ----
+    from sa.checks import c08
+    from sa import sqlx as _sqlx
+    c08.iso_year_rule(rep, {k.lower(): v for k, v in _sqlx.load_macros(P).items()}, "R09.4", only={"vtl_interval_to_period"})
     rep.assumptions = ["docs/data_types.rst is the oracle for which conversions exist",
                        "type names reach _cast_expr spelled as SCALAR_TYPES keys (target) and class names or keys (source)"]
